@@ -72,8 +72,9 @@ class PrecipitationData:
 
 class TemperatureParameters:
     def __init__(self, *args):
-        self.setTemperatureParameters(*args)
+        #Default before the arguments are applied; a schedule (array or function) sets it to False
         self._isIsothermal = True
+        self.setTemperatureParameters(*args)
 
     def setTemperatureParameters(self, *args):
         if len(args) == 2:
